@@ -294,6 +294,12 @@ func Ops() []OpDef {
 			opts := append(tmo(o), opoptions.WithInterimPromptPattern([]*regexp.Regexp{regexp.MustCompile(`(?m)^\.\.\.\s?$`)}))
 			return rres(c.G.SendCommand(Cmd1, opts...))
 		}, Want: Out1})
+	// the other way of waiting for the echo: byte-exact matching
+	add(OpDef{Name: "generic.SendCommand-exact", Kind: "cli", Override: true, ErrClass: "timeout", Setup: gen, Recovery: true,
+		Call: func(c *OpCtx, o time.Duration) (string, error) {
+			c.Begin()
+			return rres(c.G.SendCommand(Cmd1, append(tmo(o), opoptions.WithExactMatchInput())...))
+		}, Want: Out1})
 	add(OpDef{Name: "generic.SendCommands", Kind: "cli", Override: true, ErrClass: "timeout", Setup: gen, Recovery: true,
 		Call: func(c *OpCtx, o time.Duration) (string, error) {
 			c.Begin()
